@@ -343,11 +343,13 @@ fn really_works(rng: &mut Rng, k: usize, r: usize, out: &mut CaseOut, thorough: 
                 let res = guarded(|| -> Result<(), String> {
                     let originals = gen::originals(rng, k, size);
                     let recovery = codec::encode_fresh(api, k, r, size, &originals).map_err(|e| format!("encode: {e}"))?;
-                    // maximum loss, then a random sufficient set
-                    for t in 0..2 {
+                    // maximum loss, a random sufficient set, and every shard there is
+                    for t in 0..3 {
                         let (oi, ri) = if t == 0 {
                             let nrec = r.min(k);
                             ((0..k - nrec).collect::<Vec<_>>(), (0..nrec).collect::<Vec<_>>())
+                        } else if t == 2 {
+                            ((0..k).collect::<Vec<_>>(), (0..r).collect::<Vec<_>>())
                         } else {
                             let (a, b, _) = gen::received_set(rng, k, r);
                             (a, b)
